@@ -933,6 +933,9 @@ func (c *trCtx) call(x *ast.CallExpr) string {
 	if m, _ := c.builderCallInfo(x); m != nil {
 		trFail(x.Pos(), "a call on a table builder object inside an expression is outside the subset (statements and `x := t.AddRow()…` only)")
 	}
+	if r, ok := c.importStrCall(x); ok {
+		return r // MatchString / Replace on package-level values of the prelude in the importer units (trans_units_import.go)
+	}
 	if r, ok := c.regexpMatchCall(x); ok {
 		return r // re.MatchString(s) on a *regexp.Regexp value (trans_units_mapping.go)
 	}
